@@ -209,12 +209,25 @@ class VariableTransformer:
             np.logical_and((~np.isfinite(self.orig_ub)), self.apply_log_t)
         ] = 1e6
 
-        numeps = 1e-6  # accepted numerical error
+        numeps = 1e-6  # accepted numerical error, relative to the scale of each variable
+
+        def tol(x):
+            scale = np.where(
+                self.apply_log_t,
+                np.abs(x),
+                np.maximum(np.abs(x), np.abs(mu) + gamma),
+            )
+            return numeps * np.maximum(1.0, scale)
+
         tests = np.zeros(4)
-        tests[0] = np.all(np.abs(ginv(g(lbtest)) - lbtest) < numeps)
-        tests[1] = np.all(np.abs(ginv(g(ubtest)) - ubtest) < numeps)
-        tests[2] = np.all(np.abs(ginv(g(self.orig_plb)) - self.orig_plb) < numeps)
-        tests[3] = np.all(np.abs(ginv(g(self.orig_pub)) - self.orig_pub) < numeps)
+        tests[0] = np.all(np.abs(ginv(g(lbtest)) - lbtest) < tol(lbtest))
+        tests[1] = np.all(np.abs(ginv(g(ubtest)) - ubtest) < tol(ubtest))
+        tests[2] = np.all(
+            np.abs(ginv(g(self.orig_plb)) - self.orig_plb) < tol(self.orig_plb)
+        )
+        tests[3] = np.all(
+            np.abs(ginv(g(self.orig_pub)) - self.orig_pub) < tol(self.orig_pub)
+        )
         if not np.all(tests):
             raise ValueError("Cannot invert the transform to obtain the identity at the provided boundaries.")
 
